@@ -50,6 +50,14 @@ class ModuleInfo:
                 self.globals[n.targets[0].id] = n.value
 
 
+class _NoClobber(dict):
+    """spec vocabulary: a second library must not silently redefine a spec function another property's contracts use"""
+    def __setitem__(self, k, v):
+        if k in self:
+            raise RuntimeError(f"spec builtin {k} defined twice")
+        super().__setitem__(k, v)
+
+
 class Engine(ExprMixin, StmtMixin):
     max_paths = 4000
     no_merge = False
@@ -75,7 +83,7 @@ class Engine(ExprMixin, StmtMixin):
         self.inlined = set()
         self.functions_under_contract = []
         self.builtins = _lib.make_builtins(self)
-        self.spec_builtins = _lib.make_spec_builtins(self)
+        self.spec_builtins = _NoClobber(_lib.make_spec_builtins(self))
         self.depth = 0
         self.join_mode = 0
         self.externals = dict(_lt.DEFAULT_EXTERNALS)
@@ -85,6 +93,8 @@ class Engine(ExprMixin, StmtMixin):
         _li.install_spec_builtins(self)
         from . import libmask as _lm
         _lm.install(self)
+        from . import libtensor as _ltn
+        _ltn.install(self)
 
     # ------------------------------------------------------------------ modules / classes
     def module(self, relpath):
@@ -348,6 +358,17 @@ class Engine(ExprMixin, StmtMixin):
                 return [(st, VSeq(sq.len * r, lambda i: sq.elem(i / r), sq.etype))]
             if attr == "item":
                 return [(st, sq.elem(z3.IntVal(0)))]
+            if attr in ("roll", "flip") and isinstance(sq.etype, TInt) and not eng.spec_depth:
+                # integer index tensors: the result is named by a fresh function (defined by a quantified equation with the
+                # application as its pattern), so that later quantified facts about result[k] have an arithmetic-free trigger
+                sh = _e_to_int(eng.deref(kwargs.get("shifts", args[0] if args else None), st)) if attr == "roll" else None
+                f = z3.Function(uid("idx_" + attr), z3.IntSort(), z3.IntSort())
+                k = z3.Int(uid("k"))
+                src = (lambda kk: _e_to_int(sq.elem((kk - sh) % sq.len))) if attr == "roll" else (lambda kk: _e_to_int(sq.elem(sq.len - 1 - kk)))
+                st.assume(z3.ForAll([k], f(k) == src(k), patterns=[f(k)]))
+                r = VSeq(sq.len, lambda kk: VInt(f(kk if z3.is_expr(kk) else _e_to_int(kk))), INT)
+                r.kind = sq.kind
+                return [(st, r)]
             if attr == "roll":
                 sh = _e_to_int(eng.deref(kwargs.get("shifts", args[0] if args else None), st))
                 r = VSeq(sq.len, lambda k: sq.elem((k - sh) % sq.len), sq.etype)
@@ -384,6 +405,27 @@ class Engine(ExprMixin, StmtMixin):
                     st.assume(0 <= w, w < sq.len, m == conv(sq.elem(w)),
                               z3.ForAll([k], z3.Implies(z3.And(0 <= k, k < sq.len), conv(sq.elem(k)) <= m if attr == "max" else conv(sq.elem(k)) >= m)))
                 return [(st, VInt(m) if isint else VReal(m))]
+            if attr in ("sqrt", "floor", "float", "double") and isinstance(sq.etype, (TInt, TReal)) and attr != "long":
+                if attr == "sqrt":
+                    f = z3.Function("RSqrt", z3.RealSort(), z3.RealSort())
+                    k = z3.Int(uid("k"))
+                    st.assume(z3.ForAll([k], z3.Implies(_e_to_real(sq.elem(k)) >= 0, f(_e_to_real(sq.elem(k))) >= 0)))
+                    r = VSeq(sq.len, lambda i: VReal(f(_e_to_real(sq.elem(i)))), REAL)
+                elif attr == "floor":
+                    r = VSeq(sq.len, lambda i: VReal(z3.ToReal(z3.ToInt(_e_to_real(sq.elem(i))))), REAL)
+                else:
+                    r = VSeq(sq.len, lambda i: VReal(_e_to_real(sq.elem(i))), REAL)
+                r.kind = sq.kind
+                return [(st, r)]
+            if attr == "type" and isinstance(sq.etype, TReal) and args and "long" in repr(args[0]):
+                # .type(torch.long): truncation towards zero
+                def trunc(x):
+                    return z3.If(x >= 0, z3.ToInt(x), -z3.ToInt(-x))
+                r = VSeq(sq.len, lambda i: VInt(trunc(_e_to_real(sq.elem(i)))), INT)
+                r.kind = sq.kind
+                return [(st, r)]
+            if attr in ("view", "reshape", "type", "to"):
+                return [(st, sq)]           # same elements (only the leading dimension is modelled)
             if attr in ("long", "int", "contiguous"):
                 return [(st, sq)]
             if attr == "squeeze":
@@ -589,7 +631,8 @@ class Engine(ExprMixin, StmtMixin):
             old_old = st.old
             st.old = pre
             for e in c.get("ensures", []):
-                st.assume(self.spec_bool(e, st, {"result": result}))
+                for flat in self.flatten_spec(e):
+                    st.assume(self.spec_bool(flat, st, {"result": result}))
             st.old = old_old
         finally:
             st.locals = saved_locals
@@ -599,6 +642,22 @@ class Engine(ExprMixin, StmtMixin):
         if isinstance(result, VSeq):
             result = st.alloc(result)
         return [(st, result)]
+
+    @staticmethod
+    def flatten_spec(e):
+        """a spec entry as plain spec strings for ASSUMING it: isolated lemmas contribute their goal, forall-blocks one quantified
+        formula per assertion"""
+        if isinstance(e, str):
+            return [e]
+        if isinstance(e, tuple):
+            return [e[0]]
+        if isinstance(e, dict) and "forall" in e:
+            out = []
+            for a in e["asserts"]:
+                for g in Engine.flatten_spec(a):
+                    out.append(f"forall(lambda {e['forall']}: implies({e['range']}, {g}))")
+            return out
+        raise SpecError(f"cannot assume spec entry {e!r}")
 
     def make_macro_bound(self, macro, st0):
         """a macro usable from library handlers (evaluated against the pre-state it was bound in)"""
@@ -671,6 +730,7 @@ class Engine(ExprMixin, StmtMixin):
         self.depth = 0
         self.no_merge = not c.get("merge", True)
         self.lib_overrides = dict(c.get("lib", {}))
+        self.spec_nowrap = bool(c.get("spec_nowrap"))
         if c.get("externals"):
             self.externals = dict(self.externals, **c["externals"])
         n_before = len(self.obligations)
